@@ -5,7 +5,7 @@
 From Coq Require Import List ZArith Bool.
 From TskVerif Require Import Base.Common Gen.Generated C18.Model C18.ParserProofs C18.WriterProofs
   C18.BufferProofs C18.TextProofs C18.LabelProofs C18.FastaProofs C18.SafetyProofs C18.IterProofs
-  C18.AsNewickProofs C18.ExactProofs C18.NexusProofs C18.SemanticsProofs.
+  C18.AsNewickProofs C18.ExactProofs C18.NexusProofs C18.SemanticsProofs C18.Injective.
 Import ListNotations.
 Open Scope Z_scope.
 
@@ -312,3 +312,9 @@ Theorem default_precision_is_discrete_time : forall q nodes muts migs,
   (resolve_precision None q nodes muts migs = 0 \/ resolve_precision None q nodes muts migs = 17) /\
   (forall p, resolve_precision (Some p) q nodes muts migs = p).
 Proof. exact default_precision_rule. Qed.
+
+(* The Newick text determines the tree: well-formed ASTs printing to the same string are equal
+   (corollary of newick_parse_print_ast). *)
+Theorem print_newick_injective : forall t1 t2 : nw,
+  wf_nw t1 -> wf_nw t2 -> print_newick t1 = print_newick t2 -> t1 = t2.
+Proof. exact print_newick_injective_proof. Qed.
